@@ -144,11 +144,164 @@ CONTRACTS = [
                                          f"d == at_iter({W})[0] and {W} == at_iter({W})[1:]"]}},
              note="pending reads fail (each once, oldest first), a still-pending negotiation fails with the recorded error, a "
                   "pending consumer Deferred fails"),
+    Contract(T + "Connection.dataReceivedRECORDS", props=[PROP], params={},
+             self_fields={**F_BUF, **F_RX, **F_QUEUES, **F_CONSUMER},
+             requires=[INV_CONSUMER],
+             modifies=["buf", "next_receive_nonce"] + M_QUEUES + M_CONSUMER,
+             raises={"BadNonce": None, "CryptoError": None, "ValueError": None},
+             ensures=[("remainder-holds-no-complete-frame",
+                       "len(self.buf) < 4 or len(self.buf) < 4 + be_value(self.buf[:4])"),
+                      ("remainder-is-a-suffix-of-the-input", "old(self.buf).endswith(self.buf)"),
+                      ("consumer-invariant-kept", INV_CONSUMER)],
+             internal_ensures=[("consumed-whole-frames-only", "old(self.buf) == consumed + self.buf"),
+                               ("one-nonce-per-delivered-record", "self.next_receive_nonce == old(self.next_receive_nonce) + n"),
+                               ("nothing-in-this-iteration", "iter_n_calls('_decrypt_record') == 0 and iter_n_calls('recordReceived') == 0")],
+             ensures_raise={"BadNonce": [("failing-frame-not-delivered", "iter_n_calls('recordReceived') == 0")],
+                            "CryptoError": [("failing-frame-not-delivered", "iter_n_calls('recordReceived') == 0")],
+                            "ValueError": [("failing-frame-not-delivered", "iter_n_calls('recordReceived') == 0")]},
+             loops={0: {"header": "True",
+                        "ghost_init": {"consumed": "b''", "n": "0"},
+                        "ghost_update": {"consumed": "consumed + at_iter(self.buf)[:4 + length]", "n": "n + 1"},
+                        "invariant": ["at_entry(self.buf) == consumed + self.buf",
+                                      "self.next_receive_nonce == at_entry(self.next_receive_nonce) + n", "n >= 0",
+                                      INV_CONSUMER],
+                        "body_ensures": [
+                            "length == be_value(at_iter(self.buf)[:4]) and len(at_iter(self.buf)) >= 4 + length",
+                            "at_iter(self.buf) == at_iter(self.buf)[:4] + encrypted + self.buf",
+                            "len(encrypted) == length",
+                            "call_order_iter() == ['_decrypt_record', 'recordReceived']",
+                            "iter_call_arg('_decrypt_record', 0, 1) == encrypted",
+                            "iter_call_arg('recordReceived', 0, 1) == iter_call_result('_decrypt_record', 0)",
+                            "record == iter_call_result('_decrypt_record', 0)"]}},
+             note="ghost consumed/n: bytes consumed and records delivered so far in this call.  Record boundaries are a function "
+                  "of the byte stream alone (4-byte big-endian length, then exactly that many bytes); every complete frame is "
+                  "handed whole to _decrypt_record and its plaintext, unchanged, to recordReceived, in stream order; the loop "
+                  "stops only when the remainder is not a complete frame"),
+    Contract(T + "Connection.dataReceived", props=[PROP], params={"data": "bytes"},
+             self_fields={**F_STATE, **F_BUF, **F_RX, **F_QUEUES, **F_CONSUMER, **F_NEG, "transport": "obj[Transport]",
+                          "owner": "obj[Common]", "send_nonce": "int", "send_box": "obj[SecretBox]"},
+             modifies=list(F_STATE) + list(F_BUF) + ["next_receive_nonce", "receive_box", "send_nonce", "send_box"] + M_QUEUES
+             + M_CONSUMER + list(F_NEG),
+             raises={"Exception": None},
+             internal_ensures=[
+                 ("handshake-failure-drops-the-connection",
+                  "implies(n_returns('_dataReceived') == 0, self.state == 'hung up' and bcall_names() == ['setTimeout', 'loseConnection'] "
+                  "and bcall_arg('setTimeout', 0, 0) is None and self._error is not None)"),
+                 ("no-spurious-hangup", "implies(n_returns('_dataReceived') == 1, len(bcall_names()) == 0)"),
+                 ("one-pass", "n_calls('_dataReceived') == 1 and call_arg('_dataReceived', 0, 1) == data")],
+             ensures_raise={"Exception": [
+                 ("any-exception-drops-the-connection", "self.state == 'hung up'"),
+                 ("transport-closed-once-timer-cancelled",
+                  "bcall_names() == ['setTimeout', 'loseConnection'] and bcall_arg('setTimeout', 0, 0) is None"),
+                 ("error-recorded", "self._error is not None"),
+                 ("was-raised-by-the-state-machine", "n_calls('_dataReceived') == 1 and n_returns('_dataReceived') == 0")]},
+             note="_dataReceived is used through an over-approximating contract (may raise anything, may modify every field): "
+                  "whatever it raises (BadNonce, CryptoError, ValueError, BadHandshake, ...) the connection is dropped exactly once "
+                  "and the state becomes 'hung up'; only BadHandshake is swallowed"),
+    # ------------------------------------------------------------------ keys: one per direction, same on both ends
+    Contract(T + "Common._sender_record_key", props=[PROP], params={}, self_fields={"is_sender": "bool", "_transit_key": "bytes"},
+             returns="bytes", raises_exactly={"AssertionError": "len(self._transit_key) == 0"},
+             ensures=[("hkdf-of-transit-key-and-role",
+                       "result == hkdf(self._transit_key, 32, ite(self.is_sender, b'transit_record_sender_key', "
+                       "b'transit_record_receiver_key'))"),
+                      ("secretbox-key-size", "len(result) == 32")]),
+    Contract(T + "Common._receiver_record_key", props=[PROP], params={}, self_fields={"is_sender": "bool", "_transit_key": "bytes"},
+             returns="bytes", raises_exactly={"AssertionError": "len(self._transit_key) == 0"},
+             ensures=[("hkdf-of-transit-key-and-opposite-role",
+                       "result == hkdf(self._transit_key, 32, ite(self.is_sender, b'transit_record_receiver_key', "
+                       "b'transit_record_sender_key'))"),
+                      ("secretbox-key-size", "len(result) == 32")]),
+    Contract("lemma:record_keys_cross_match", props=[PROP], source_module=T_PY,
+             params={"s": "obj[Common]", "r": "obj[Common]"},
+             source_text="""
+             def record_keys_cross_match(s, r):
+                 return (s._sender_record_key(), r._receiver_record_key(), r._sender_record_key(), s._receiver_record_key())
+             """,
+             requires=["s.is_sender and not r.is_sender", "s._transit_key == r._transit_key", "len(s._transit_key) > 0"],
+             ensures=[("sender-to-receiver-direction-shares-one-key", "result[0] == result[1]"),
+                      ("receiver-to-sender-direction-shares-one-key", "result[2] == result[3]"),
+                      ("the-two-directions-use-different-keys", "result[0] != result[2]")],
+             note="over the two key functions' contracts; 'different keys' uses the HKDF idealisation (injective in info): a frame "
+                  "reflected back to its sender is encrypted under the other direction's key"),
+    Contract(T + "Connection._negotiationSuccessful", props=[PROP], params={},
+             self_fields={**F_STATE, **F_RX, "send_nonce": "int", "send_box": "obj[SecretBox]", "owner": "obj[Common]",
+                          "_negotiation_d": f"opt[{DEFERRED}]"},
+             requires=["self._negotiation_d is not None", "len(self.owner._transit_key) > 0"],
+             modifies=["state", "send_box", "send_nonce", "receive_box", "next_receive_nonce", "_negotiation_d"],
+             ensures=[("records-state", "self.state == 'records'"),
+                      ("both-counters-start-at-zero", "self.send_nonce == 0 and self.next_receive_nonce == 0"),
+                      ("negotiation-deferred-consumed", "self._negotiation_d is None")],
+             internal_ensures=[
+                 ("send-box-uses-the-send-direction-key", "self.send_box.key == call_result('_sender_record_key')"),
+                 ("receive-box-uses-the-receive-direction-key", "self.receive_box.key == call_result('_receiver_record_key')")],
+             effects=[("setTimeout", ["None"]), ("callback", ["old(self._negotiation_d)", "self"])],
+             note="entering 'records': fresh boxes keyed by the owner's two direction keys, both nonce counters 0, the negotiation "
+                  "Deferred fired exactly once with this connection"),
+    # ------------------------------------------------------------------ sender frame vs receiver parser
+    BodyLemma("lemma:frame_roundtrip", T + "Connection.dataReceivedRECORDS", props=[PROP], params={},
+              self_fields={**F_BUF, **F_RX, **F_QUEUES, **F_CONSUMER}, ghost={"c": "bytes", "rest": "bytes"},
+              requires=[INV_CONSUMER, "len(c) < 2**32", "self.buf == be_enc(len(c), 4) + c + rest"],
+              raises={"BadNonce": None, "CryptoError": None, "ValueError": None},
+              modifies=["buf", "next_receive_nonce"] + M_QUEUES + M_CONSUMER,
+              ensures=[("first-frame-is-exactly-what-was-written", "k >= 1 and first == c and after_first == rest")],
+              ensures_raise={e: [("first-frame-is-exactly-what-was-written",
+                                  "implies(k == 0, call_arg('_decrypt_record', 0, 1) == c) and implies(k >= 1, first == c and after_first == rest)")]
+                             for e in ("BadNonce", "CryptoError", "ValueError")},
+              loops={0: {"ghost_init": {"k": "0", "first": "b''", "after_first": "b''"},
+                         "ghost_update": {"first": "ite(k == 0, encrypted, first)", "after_first": "ite(k == 0, self.buf, after_first)",
+                                          "k": "k + 1"},
+                         "invariant": ["k >= 0", "implies(k == 0, self.buf == at_entry(self.buf))",
+                                       "implies(k >= 1, first == at_entry(self.buf)[4:4 + be_value(at_entry(self.buf)[:4])] and "
+                                       "after_first == at_entry(self.buf)[4 + be_value(at_entry(self.buf)[:4]):])",
+                                       INV_CONSUMER]}},
+              note="real loop body, specialised precondition: the buffer starts with what send_record's contract says it writes "
+                   "for a ciphertext c (be4(len(c)) then c), followed by anything.  The first frame handed to _decrypt_record is "
+                   "exactly c and exactly `rest` is left for the following frames"),
+    BodyLemma("lemma:frame_incomplete", T + "Connection.dataReceivedRECORDS", props=[PROP], params={},
+              self_fields={**F_BUF, **F_RX, **F_QUEUES, **F_CONSUMER}, ghost={"c": "bytes", "cut": "int"},
+              requires=[INV_CONSUMER, "len(c) < 2**32", "0 <= cut and cut < 4 + len(c)",
+                        "self.buf == (be_enc(len(c), 4) + c)[:cut]"],
+              modifies=["buf", "next_receive_nonce"] + M_QUEUES + M_CONSUMER,   # the loop head havocs them; see the clause
+              ensures=[("nothing-delivered-nothing-consumed", "self.buf == old(self.buf) and n_calls('_decrypt_record') == 0 and "
+                                                              "n_calls('recordReceived') == 0")],
+              loops={0: {"invariant": ["self.buf == at_entry(self.buf)"], "body_ensures": ["False"]}},
+              note="any proper prefix of a frame yields no record and stays buffered (fragmentation never surfaces a truncated record)"),
+    # ------------------------------------------------------------------ the state machine once established / dropped
+    BodyLemma("lemma:hung_up_is_silent", T + "Connection._dataReceived", props=[PROP], params={"data": "bytes"},
+              self_fields={**F_STATE, **F_BUF, **F_RX, **F_QUEUES, **F_CONSUMER, **F_NEG, "transport": "obj[Transport]",
+                           "owner": "obj[Common]", "send_nonce": "int", "send_box": "obj[SecretBox]"},
+              requires=["self.state == 'hung up'"], modifies=["buf"],
+              ensures=[("nothing-parsed-nothing-delivered", "len(call_order()) == 0 and len(bcall_names()) == 0 and "
+                                                            "n_events('box.decrypt') == 0")],
+              note="after any failure (state 'hung up') further bytes are only buffered: no frame is parsed, no record decrypted or "
+                   "delivered, nothing written; every field but buf is proved unchanged (frame)"),
+    BodyLemma("lemma:records_state_parses_frames", T + "Connection._dataReceived", props=[PROP], params={"data": "bytes"},
+              self_fields={**F_STATE, **F_BUF, **F_RX, **F_QUEUES, **F_CONSUMER, **F_NEG, "transport": "obj[Transport]",
+                           "owner": "obj[Common]", "send_nonce": "int", "send_box": "obj[SecretBox]"},
+              requires=["self.state == 'records'", INV_CONSUMER],
+              modifies=["buf", "next_receive_nonce"] + M_QUEUES + M_CONSUMER,
+              raises={"BadNonce": None, "CryptoError": None, "ValueError": None},
+              ensures=[("only-the-frame-parser-runs", "call_order() == ['dataReceivedRECORDS'] and len(bcall_names()) == 0"),
+                       ("new-bytes-appended-to-the-stream-then-whole-frames-consumed",
+                        "(old(self.buf) + data).endswith(self.buf) and "
+                        "(len(self.buf) < 4 or len(self.buf) < 4 + be_value(self.buf[:4]))"),
+                       ("still-established", "self.state == 'records'")],
+              note="in state 'records' every chunk is appended to the buffer and the frame parser (by contract) runs on the whole "
+                   "buffer: chunking of the TCP stream is invisible to it"),
 ]
 
 
+ALL_CONN_FIELDS = ["state", "buf", "next_receive_nonce", "receive_box", "send_nonce", "send_box", "_negotiation_d", "_error"] \
+    + M_QUEUES + M_CONSUMER
+
+# over-approximation of Connection._dataReceived (its precise contract is C07's): any outcome, any field
+ANY_DATA_RECEIVED = Contract(T + "Connection._dataReceived", params={"data": "bytes"}, modifies=ALL_CONN_FIELDS,
+                             raises={"BadHandshake": None, "Exception": None},
+                             note="sound for any implementation that touches only these fields of self")
+
+
 def regf(exclude=()):
-    reg = make_transit_registry(CONTRACTS, exclude)
+    reg = make_transit_registry(CONTRACTS + [ANY_DATA_RECEIVED], exclude)
     reg.class_fields["Connection"] = {}
     sf = reg.spec_funcs
 
@@ -157,6 +310,13 @@ def regf(exclude=()):
         return VStr(x.cls if isinstance(x, VObj) else "?")
 
     sf["exc_class"] = exc_class
+
+    def call_order_iter(it):
+        tr = it.ctx.trace
+        start = max([i for i, e in enumerate(tr) if e[0] == "loop-body-start"] + [-1])
+        return VList([VStr(e[1][0].split(".")[-1]) for e in tr[start + 1:] if e[0] == "call"])
+
+    sf["call_order_iter"] = call_order_iter
     return reg
 
 
